@@ -990,6 +990,17 @@ func (c *c49ctx) rewriteFamily() {
 			}
 		}
 	}
+	var deepReqs []c49req
+	if r.Thorough() {
+		for _, hf := range c49hosts[:2] {
+			for _, p := range c49paths[:2] {
+				for _, qs := range c49queries(maxQ + 1) {
+					deepReqs = append(deepReqs, c49req{abs: hf.abs, host: hf.host, path: p, query: qs, hasQ: true, product: c49product})
+				}
+			}
+		}
+		r.Set("rewrite_requests_query_actions", len(deepReqs))
+	}
 	// a request of another product: no rule applies
 	other := []c49req{{host: "www.example.com", path: "/a/b", query: "k=v&j=w", hasQ: true, product: "other"}}
 	r.Set("rewrite_requests", len(reqs)+len(other))
@@ -1040,6 +1051,9 @@ func (c *c49ctx) rewriteFamily() {
 			continue
 		}
 		rs := reqs
+		if ri < nSingles && r.Thorough() && strings.HasPrefix(ru.acts[0].Cmd, "QUERY_") {
+			rs = deepReqs // query actions alone: one more pair
+		}
 		if ri >= nSingles {
 			// two-action rules: queries one pair shorter than for single actions
 			rs = rs[:0:0]
@@ -1279,17 +1293,30 @@ func (c *c49ctx) headerFamily() {
 					delete(o.rspH, k)
 				}
 			}
-			st := c49hdrState(q.reqH, ru.acts[0].Params[0]) + "/" + c49hdrState(q.rspH, ru.acts[0].Params[0])
-			cmds := ru.cmds()
-			if !hit {
-				cmds += ":rule-not-applicable"
+			// signature: the last action of the rule that names the disagreeing header (else the
+			// whole command list), the side, and how many values that header had on that side
+			blame := func(side string, hdrs [][2]string, kind, det string) string {
+				cmds := ru.cmds()
+				st := "-"
+				for _, a := range ru.acts {
+					if strings.HasPrefix(det, "header "+c49canon(a.Params[0])+":") {
+						if kind == "target-header-wrong" {
+							cmds = a.Cmd
+						}
+						st = c49hdrState(hdrs, a.Params[0])
+					}
+				}
+				if !hit {
+					cmds += ":rule-not-applicable"
+				}
+				return vk.Key("header", cmds, side, st, kind)
 			}
 			if kind, det := c49hdrDiff(o.reqH, wantReq, target); kind != "" {
-				r.Violation(vk.Key("header", cmds, "request", st, kind), id, det)
+				r.Violation(blame("request", q.reqH, kind, det), id, det)
 				r.Outcome("header:VIOLATION")
 			}
 			if kind, det := c49hdrDiff(o.rspH, wantRsp, target); kind != "" {
-				r.Violation(vk.Key("header", cmds, "response", st, kind), id, det)
+				r.Violation(blame("response", q.rspH, kind, det), id, det)
 				r.Outcome("header:VIOLATION")
 			}
 		}
@@ -1426,6 +1453,116 @@ func (c *c49ctx) redirectFamily() {
 	}
 }
 
+// ---------------------------------------------------------------------------------------------
+// the rule-file examples printed in the three module docs must load and act as the docs say
+
+type c49docExample struct {
+	fam, doc, data string
+	req            c49req
+}
+
+func c49docJSON(path string) (string, error) {
+	b, err := os.ReadFile(path)
+	if err != nil {
+		return "", err
+	}
+	s := string(b)
+	// the rule example is the last ```json block of the page
+	i := strings.LastIndex(s, "```json")
+	if i < 0 {
+		return "", fmt.Errorf("no json block in %s", path)
+	}
+	s = s[i+len("```json"):]
+	j := strings.Index(s, "```")
+	if j < 0 {
+		return "", fmt.Errorf("unterminated json block in %s", path)
+	}
+	return s[:j], nil
+}
+
+func (c *c49ctx) docExamples() {
+	r := c.r
+	repo := os.Getenv("VERIF_REPO")
+	if repo == "" {
+		repo = "/repo"
+	}
+	exs := []c49docExample{
+		{"rewrite", "docs/en_us/modules/mod_rewrite/mod_rewrite.md", "mod_rewrite/rewrite.data",
+			c49req{host: "example.org", path: "/rewrite", product: "example_product"}},
+		{"header", "docs/en_us/modules/mod_header/mod_header.md", "mod_header/header_rule.data",
+			c49req{host: "example.org", path: "/header", product: "example_product", reqH: [][2]string{{"X-Bar", "b"}}}},
+		{"redirect", "docs/en_us/modules/mod_redirect/mod_redirect.md", "mod_redirect/redirect.data",
+			c49req{host: "example.org", path: "/redirect", product: "example_product"}},
+	}
+	for _, ex := range exs {
+		if !c.next() {
+			continue
+		}
+		id := vk.Key("doc-example", ex.fam)
+		run := r.Case(id)
+		if !run {
+			continue
+		}
+		js, err := c49docJSON(filepath.Join(repo, ex.doc))
+		if err != nil {
+			c.t.Fatalf("c49: %v", err)
+		}
+		// conf file as in the other families, data file = the example verbatim
+		if err := c49writeConf(ex.fam, c49rule{cond: c49condAll}); err != nil {
+			c.t.Fatalf("c49: %v", err)
+		}
+		if err := os.WriteFile(filepath.Join(c49root, ex.data), []byte(js), 0o644); err != nil {
+			c.t.Fatalf("c49: %v", err)
+		}
+		m := &c49mod{fam: ex.fam, cbs: bfe_module.NewBfeCallbacks()}
+		whs := web_monitor.NewWebHandlers()
+		switch ex.fam {
+		case "rewrite":
+			m.err = NewModuleReWrite().Init(m.cbs, whs, c49root)
+		case "header":
+			m.err = mod_header.NewModuleHeader().Init(m.cbs, whs, c49root)
+		case "redirect":
+			m.err = mod_redirect.NewModuleRedirect().Init(m.cbs, whs, c49root)
+		}
+		if m.err != nil {
+			r.Outcome("accept:rejected")
+			r.Violation(vk.Key("accept", ex.fam, "doc-example", "rejected-by-loader"), id,
+				fmt.Sprintf("the rule file printed in %s is rejected by the real loader: %v", ex.doc, m.err))
+			continue
+		}
+		r.Outcome("accept:ok")
+		o, ok := c.guard(m, ex.req, id)
+		if !ok {
+			continue
+		}
+		r.NontrivialN(1)
+		bad := ""
+		switch ex.fam {
+		case "rewrite": // PATH_PREFIX_ADD /bfe/ on /rewrite
+			if got := c49unescape(o.rawPath, false); got != "/bfe/rewrite" || o.host != "example.org" || o.hasQ {
+				bad = fmt.Sprintf("sent path %q host %q", o.rawPath, o.host)
+			}
+		case "header": // X-Bfe-Log-Id: %bfe_log_id, X-Bfe-Vip: %bfe_vip, response X-Proxied-By: bfe
+			want := map[string][]string{"X-Bar": {"b"}, "X-Bfe-Log-Id": {c49logid}, "X-Bfe-Vip": {c49vip}}
+			if k, det := c49hdrDiff(o.reqH, want, nil); k != "" {
+				bad = "request " + det
+			}
+			if k, det := c49hdrDiff(o.rspH, map[string][]string{"X-Proxied-By": {"bfe"}}, nil); k != "" {
+				bad += " response " + det
+			}
+		case "redirect": // URL_SET https://example.org, Status 301
+			if o.verdict != bfe_module.BfeHandlerRedirect || o.rurl != "https://example.org" || o.rcode != 301 {
+				bad = fmt.Sprintf("verdict %d url %q code %d", o.verdict, o.rurl, o.rcode)
+			}
+		}
+		if bad != "" {
+			r.Violation(vk.Key("doc-example", ex.fam, "effect-wrong"), id, bad)
+		} else {
+			r.Outcome("doc-example:as-documented")
+		}
+	}
+}
+
 func TestVerifC49(t *testing.T) {
 	r := vk.Start(t, "C49")
 	defer r.Finish()
@@ -1440,6 +1577,7 @@ func TestVerifC49(t *testing.T) {
 		t.Fatalf("c49: scratch: %v", err)
 	}
 	c := &c49ctx{t: t, r: r, singles: map[string]*c49mod{}, alone: map[string]error{}}
+	c.docExamples()
 	c.rewriteFamily()
 	c.headerFamily()
 	c.redirectFamily()
